@@ -60,6 +60,14 @@ def jobs_for(tier, rnd):
             tx = (T1[:60] + T2 + T1[-9:]) if ign else T1
             jobs.append((gid, d, tx, {'positions': [0, 1, 2], 'fulls': [True, False] if kind == 'look' else [True], 'kind': kind, 'module_level': True}))
             gid += 1
+    # the START RULE is a class and the input begins with ignorable text: the instance's span begins where the match
+    # began (the offset parsing started at), not after the skipped text
+    TL = ['  1a', ' 1a 1b', '\n1a', '1a', '  ', 'x  1a', ' \n 1a1b ']
+    for body in ['class Start { head: K; rest: K* }', 'class Start { head: Opt(K); tail: D* }', 'class start { items: (K // ",") }',
+                 'class Start { k: K }\nOther = Start']:
+        d = body + '\n' + PRELUDE.replace('class K', 'class K') + IGN
+        jobs.append((gid, d, TL, {'positions': [0, 1, 2], 'fulls': [True, False], 'kind': 'class-start', 'module_level': True}))
+        gid += 1
     return jobs
 
 
